@@ -397,6 +397,11 @@ def r9_event_driven(repo, rep, name):
                 and isinstance(st.value, ast.Subscript) and isinstance(st.value.value, ast.Name) \
                 and st.value.value.id == st.targets[0].id and isinstance(st.value.slice, ast.Slice):
             sl[st.targets[0].id] = st
+    # the queue holds the series lists themselves (handed over in the args of the queued events): a slice taken before the
+    # event loop has run copies the not yet written series, and the events go on writing the originals
+    body = list(f.node.body)
+    runs = [i for i, z in enumerate(body) if isinstance(z, ast.While) and any(
+        isinstance(c, ast.Call) and isinstance(c.func, ast.Attribute) and c.func.attr == "pop_and_run" for c in ast.walk(z))]
     for n in names:
         st = sl.get(n)
         ok = st is not None and st.value.slice.upper is None and st.value.slice.step is None and \
@@ -405,6 +410,13 @@ def r9_event_driven(repo, rep, name):
                node=st if st is not None else f.node,
                detail="" if ok else "series %s is not sliced by len(%s) (the number of events enqueued at tmin)" % (n, short(dom)),
                construct="%s = %s" % (n, short(st.value) if st is not None else None))
+        if st is not None and runs:
+            late = body.index(st) > max(runs)
+            rep.ob("R9.C04", late, "%s: %s is cut after the event loop has run" % (name, n), func=f, node=st,
+                   construct="%s sliced at statement %d, event loop at %d" % (n, body.index(st), max(runs)),
+                   detail="" if late else "series %s is sliced (copied) before the event loop runs: the events write the original list, "
+                   "the returned copy holds nothing but the start row" % n)
+    rep.floor("R9.C04", "%s event loops (while Q: Q.pop_and_run())" % name, len(runs), 1)
 
 
 def r9_generic(repo, rep, name):
